@@ -87,6 +87,11 @@ def _controlled_subcircuit(rng, qs):
                 cirq.If(cond(f2, k2), g1(qs[1]).with_classical_controls(cond(f1, k1)), g2(qs[2])) if use_if else cirq.CircuitOperation(inner).with_classical_controls(cond(f2, k2))]
     if with_c:
         body_ops.append(cirq.Moment(cirq.measure(qs[1], key="c")))
+    # an operation at the START of the body that reads key a BEFORE the body measures a itself: it sees the enclosing scope's a
+    # (in every repetition), never the body's own later measurement
+    early = rng.random() < 0.3
+    if early:
+        body_ops.insert(0, cirq.Moment(g2(qs[2]).with_classical_controls(cond("plain", "a"))))
     op = cirq.CircuitOperation(cirq.FrozenCircuit(body_ops))
     r = rng.random()
     prefixes, kmap = [None], {}
@@ -94,17 +99,22 @@ def _controlled_subcircuit(rng, qs):
         op, prefixes = op.repeat(2, use_repetition_ids=True), ["0", "1"]
     elif r < 0.6:
         op, prefixes = op.with_key_path(("p",)), ["p"]
-    elif r < 0.85:
+    elif r < 0.85 and not early:
         kmap = rng.choice([{"a": "z"}, {"b": "y"}, {"a": "z", "b": "y"}, {"a": "b", "b": "a"}])
         op = op.with_measurement_key_mapping(kmap)
     flat = []
     for pre in prefixes:
         K = lambda x: cirq.MeasurementKey(name=kmap.get(x, x), path=(pre,) if pre else ())
+        if early:
+            flat.append(g2(qs[2]).with_classical_controls(cond("plain", cirq.MeasurementKey("a"))))
         flat += [cirq.X(qs[0]) ** 0.5, cirq.measure(qs[0], key=K("a"))] + ([cirq.X(qs[0]) ** 0.5, cirq.measure(qs[0], key=K("a"))] if twice else [])
         flat += [cirq.X(qs[2]) ** 0.5, cirq.measure(qs[2], key=K("b")),
                  g1(qs[1]).with_classical_controls(cond(f1, K(k1)), cond(f2, K(k2))), g2(qs[2]).with_classical_controls(cond(f2, K(k2)))]
         if with_c:
             flat.append(cirq.measure(qs[1], key=K("c")))
+    if early:
+        outer = [cirq.X(qs[1]) ** 0.5, cirq.measure(qs[1], key="a")]   # the enclosing scope's a
+        return outer + [op], cirq.Circuit(outer + flat, strategy=cirq.InsertStrategy.NEW)
     return op, cirq.Circuit(flat, strategy=cirq.InsertStrategy.NEW)
 
 
@@ -127,7 +137,8 @@ def standin_subcircuits(tier, seed):
             continue  # a rejected construction (e.g. key collision) is not a wrong answer
         flat_variants = {}
         try:
-            flat_variants["mapped_circuit(deep=True)"] = cirq.Circuit(cirq.Moment(cirq.H(qs[0])), op.mapped_circuit(deep=True))
+            pre_ops, sub_op = (op[:-1], op[-1]) if isinstance(op, list) else ([], op)
+            flat_variants["mapped_circuit(deep=True)"] = cirq.Circuit(cirq.Moment(cirq.H(qs[0])), pre_ops, sub_op.mapped_circuit(deep=True))
             flat_variants["unroll_circuit_op(deep=True)"] = cirq.unroll_circuit_op(c, deep=True, tags_to_check=None)
             flat_variants["decompose"] = cirq.Circuit(cirq.decompose(c, keep=lambda o: not isinstance(o.untagged, cirq.CircuitOperation)))
         except ValueError:
